@@ -38,13 +38,9 @@ def outcome_key(s):
 def main(tier):
     run = Run("C06", tier, module="DS.Props.C06", props_file="DS/Props/C06.lean",
               extra_files=["DS/Model/Rng.lean"])
-    ok = run.prepare()
-    if not ok:
-        # a regenerated fact or proof no longer checks: still build the rest so that the search below can run
-        from lib.common import lake_build
-        lake_build(["dsmodel"])
-    else:
-        run.proofs()
+    if not run.prepare():
+        return run.finish(trusted=[], rule="build failed")
+    run.proofs()
     r = run.rng
     # ---- rng stream (PCG + marshal)
     lines = [f"rng {r.getrandbits(128):032x} {r.randint(1, 8)}" for _ in range(400 if tier == "thorough" else 100)]
